@@ -910,8 +910,15 @@ void labelPlan(pbt::Case &c, const Stream &s, const LoopPlan &plan, const LoopRe
 namespace
 {
 /// raw connection to the loopback server incl. opening handshake; false => verdict already set
-bool connectAndUpgrade(pbt::Case &c, LoopServer &srv, c18net::RawConn &conn, const std::string &key, ws::SessionId &sid)
+bool connectAndUpgrade(pbt::Case &c, LoopServer &srv, c18net::RawConn &conn, const std::string &key, ws::SessionId &sid, bool fixedCase = false)
 {
+  // fixedCase: a regression judged in the replay tier, where a bounded wait is not re-run 3x;
+  // a handshake that does not complete in time is reported as inconclusive there
+  auto timedFail = [&](const std::string &w)
+  {
+    if (fixedCase) c.inconclusive(w);
+    else c.failTimed("C18/server/handshake-timeout", w);
+  };
   const int before = srv.arm();
   conn.fd = c18net::connectLoopback(srv.port, 60.0);
   if (conn.fd < 0)
@@ -927,12 +934,12 @@ bool connectAndUpgrade(pbt::Case &c, LoopServer &srv, c18net::RawConn &conn, con
     // nobody upgraded on OUR server: either it never saw the connection (a foreign listener shares
     // the port through SO_REUSEPORT) or it did not answer in time
     if (ok || !timedOut) c.inconclusive("the upgrade was not handled by the server under test (foreign listener on the port?): " + why);
-    else c.failTimed("C18/server/handshake-timeout", why);
+    else timedFail(why);
     return false;
   }
   if (!ok)
   {
-    if (timedOut) c.failTimed("C18/server/handshake-timeout", why);
+    if (timedOut) timedFail(why);
     else c.fail("C18/server/handshake", why);
     return false;
   }
@@ -2208,8 +2215,7 @@ PBT_REGRESSION(client_data_after_close)
   bool harnessSide = false;
   if (!cut.start(why, harnessSide))
   {
-    if (harnessSide) c.inconclusive(why);
-    else if (cut.timed) c.failTimed("C18/client/handshake-timeout", why);
+    if (harnessSide || cut.timed) c.inconclusive(why); // fixed case: only its own oracle counts
     else c.fail("C18/client/handshake", why);
     return;
   }
@@ -2237,7 +2243,7 @@ PBT_REGRESSION(server_data_after_close)
   }
   c18net::RawConn conn;
   ws::SessionId sid = 0;
-  if (!connectAndUpgrade(c, *srv, conn, "dGhlIHNhbXBsZSBub25jZQ==", sid)) return;
+  if (!connectAndUpgrade(c, *srv, conn, "dGhlIHNhbXBsZSBub25jZQ==", sid, true)) return;
   c.describe("server: sendText(\"before\"); sendClose(1000); sendText(\"after\"); sendBinary({1,2,3})");
   srv->sendText(sid, "before");
   srv->sendClose(sid, 1000, "bye");
@@ -2262,7 +2268,7 @@ PBT_REGRESSION(server_pong_echoes_payload)
   }
   c18net::RawConn conn;
   ws::SessionId sidUnused = 0;
-  if (!connectAndUpgrade(c, *srv, conn, "dGhlIHNhbXBsZSBub25jZQ==", sidUnused)) return;
+  if (!connectAndUpgrade(c, *srv, conn, "dGhlIHNhbXBsZSBub25jZQ==", sidUnused, true)) return;
   std::vector<std::string> pings = {"hb-1", std::string(125, '\x7f'), std::string(), std::string("\x00\xff\x80", 3)};
   c.describe("server <- TEXT(!fin) PING hb-1 PING 125x7f CONT(fin) PING empty PING 00ff80, cut inside the second ping's header");
   std::uint8_t key[4] = {0x10, 0x20, 0x30, 0x40};
@@ -2282,9 +2288,9 @@ PBT_REGRESSION(server_pong_echoes_payload)
   conn.writeSegment(std::string_view(wire).substr(0, cut));
   conn.writeSegment(std::string_view(wire).substr(cut));
   conn.writeSegment(fr(refws::OpPing, true, kSentinel));
-  if (!conn.readUntil([&] { return sentinelOrVerdict(conn.rx, kSentinel, pings.size()); }, 30.0))
+  if (!conn.readUntil([&] { return sentinelOrVerdict(conn.rx, kSentinel, pings.size()); }, 90.0))
   {
-    c.failTimed("C18/server/ping-unanswered", "pings were not answered within 30 s");
+    c.failTimed("C18/server/ping-unanswered", "pings were not answered within 90 s");
     return;
   }
   conn.writeSegment(fr(refws::OpClose, true, std::string("\x03\xe8", 2)));
@@ -2302,8 +2308,7 @@ PBT_REGRESSION(client_pong_echoes_payload)
   bool harnessSide = false;
   if (!cut.start(why, harnessSide))
   {
-    if (harnessSide) c.inconclusive(why);
-    else if (cut.timed) c.failTimed("C18/client/handshake-timeout", why);
+    if (harnessSide || cut.timed) c.inconclusive(why); // fixed case: only its own oracle counts
     else c.fail("C18/client/handshake", why);
     return;
   }
@@ -2324,9 +2329,9 @@ PBT_REGRESSION(client_pong_echoes_payload)
   conn.writeSegment(std::string_view(wire).substr(0, cutAt));
   conn.writeSegment(std::string_view(wire).substr(cutAt));
   conn.writeSegment(fr(refws::OpPing, true, kSentinel));
-  if (!conn.readUntil([&] { return sentinelOrVerdict(conn.rx, kSentinel, pings.size()); }, 30.0))
+  if (!conn.readUntil([&] { return sentinelOrVerdict(conn.rx, kSentinel, pings.size()); }, 90.0))
   {
-    c.failTimed("C18/client/ping-unanswered", "pings were not answered within 30 s");
+    c.failTimed("C18/client/ping-unanswered", "pings were not answered within 90 s");
     return;
   }
   conn.writeSegment(fr(refws::OpClose, true, std::string("\x03\xe8", 2)));
